@@ -527,7 +527,7 @@ PROFILES = {
               'ntasks': {3: 20, 4: 25, 5: 20, 6: 20, 8: 15},
               'shape': {'forkjoin': 35, 'random': 35, 'disconnected': 15, 'diamond': 15},
               'nm': {2: 20, 3: 30, 4: 30, 5: 20},
-              'unit': {'seconds': 100}, 'buffer': {'ample': 95, 'wait': 5},
+              'unit': {'seconds': 100}, 'buffer': {'ample': 84, 'wait': 5, 'over': 8, 'exact': 3},
               'dists': ['normal', 'poisson', 'uniform'],
               'faults': {'F1': 0.0, 'F1m': 0.5, 'F3': 0.0, 'F4': 0.0}},
     'gdelay': {'pairing': {'greedy': 60, 'dynamic': 40}, 'hetero': 0.9, 'nm': {2: 20, 3: 35, 4: 30, 5: 15},
